@@ -634,7 +634,7 @@ fn from_json(v: &Value) -> Option<History> {
 fn run(ctx: &Ctx) {
     let mem = RefCell::new(Mem10::new());
     ctx.shrink_iters.set(3000);
-    let cases = ctx.share(ctx.tier.pick(24_000, 640_000));
+    let cases = ctx.share(ctx.tier.pick(96_000, 1_920_000));
     ctx.search("histories", "history", cases, history(), |h, want_case| {
         let (v, interesting) = check(&mem.borrow(), h);
         if !want_case {
